@@ -101,7 +101,7 @@ def _check(prop, tier, seed, replay, work, t0):
             if mode == "loader":
                 n, stride = (16, 32) if tier == "quick" else (64, 4)
             else:
-                n, stride = (480 if tier == "quick" else 4800), 8
+                n, stride = (480 if tier == "quick" else 96000), 8
                 if mode == "fault":
                     n = 320 if tier == "quick" else 3200
             cmds = [[drv, "-mode", mode, "-seed", str(seed), "-n", str(n), "-flip-stride", str(stride), "-shard", str(i), "-shards", str(shards),
